@@ -154,6 +154,7 @@ type Machine struct {
 	cdirs       map[*LObj]*cDir
 	hangLimit   int
 	faultOpen   int
+	faultRead   int
 	allocBytes  int64
 	allocLimit  int64 // > 0: VerifAllocBudget in force
 	maxSteps    int
